@@ -13,7 +13,7 @@ import (
 
 func (fc *FnCtx) mapComps(m *types.Map) (has, val string) {
 	ks, vs := fc.tc.sortOf(m.Key()), fc.tc.sortOf(m.Elem())
-	id := mangle(types.TypeString(m.Key(), nil)) + "|" + mangle(types.TypeString(m.Elem(), nil))
+	id := mangle(canonTypeString(m.Key())) + "|" + mangle(canonTypeString(m.Elem())) // byte == uint8, rune == int32 (ext_crypto.go)
 	has, val = "MH|"+id, "MV|"+id
 	fc.registerComp(has, "(Array Ptr (Array "+ks+" Bool))")
 	fc.registerComp(val, "(Array Ptr (Array "+ks+" "+vs+"))")
@@ -76,7 +76,9 @@ func (fr *Frame) exec(in ssa.Instruction, st *State, g string) {
 			} else if sc := x.Common().StaticCallee(); sc != nil {
 				ck = funcKey(sc)
 			}
+			fr.lastCallRes = res // `hint after` clauses may name the callee's results: callresult, callresult0, callresult1 ...
 			fr.applyHints("after", ck, x.Block(), st, g, nil)
+			fr.lastCallRes = nil
 		}
 		if x.Type() != nil {
 			if tup, ok := x.Type().(*types.Tuple); ok {
@@ -231,6 +233,7 @@ func (fr *Frame) exec(in ssa.Instruction, st *State, g string) {
 		m := fr.val(x.Map)
 		fr.safe("mapwrite", g, not(eq(m.t, nilPtr)), x.Pos(), "assignment to entry in nil map")
 		mt := x.Map.Type().Underlying().(*types.Map)
+		fr.mapRangeInsertCheck(x, st, g) // ext_crypto.go: no new key is inserted into a map while it is being ranged over
 		mh, mv := fc.mapComps(mt)
 		k, v := fr.val(x.Key), fr.val(x.Value)
 		hh := fc.comp(st, mh, fc.comps[mh])
@@ -246,7 +249,7 @@ func (fr *Frame) exec(in ssa.Instruction, st *State, g string) {
 		fr.panicInstr(x, st, g)
 	case *ssa.Range:
 		fr.vals[x] = SV{t: fr.val(x.X).t, typ: x.X.Type()}
-		fr.rangeInit(x, st) // map range: the ghost visited set starts empty (ext_maprange.go)
+		fr.mapRangeInit(x, st) // ext_crypto.go: ghost visited set of a map range starts empty
 	case *ssa.Return:
 		fr.ret(x, st, g)
 	case *ssa.RunDefers:
@@ -490,8 +493,18 @@ func (fr *Frame) unop(x *ssa.UnOp, st *State, g string) {
 		fr.setVal(x, tc.sortOf(x.Type()), ld)
 		fc.assume(g, tc.wf(fr.vals[x].t, x.Type(), fc.watermark(st)))
 		if strings.HasPrefix(ld, "(select H0_") {
-			// read straight from a component of the ENTRY heap: whatever it holds was allocated before entry
-			fc.assume(g, tc.wf(fr.vals[x].t, x.Type(), compInit("W")))
+			// read straight from a component of the ENTRY heap: whatever an OLD cell holds was allocated before entry.
+			// (Only for cells that existed at entry: the fields of an object returned `fresh` by an assumed contract with
+			// `modifies nothing` are also read from the entry component, and they may well point to other fresh objects --
+			// assuming them old contradicted `fresh(result.Field)` and made everything after such a call vacuous.)
+			// The guard is needed only when the address is derived from a call result (ext_kviter.go: addrFromCall).
+			gg := g
+			if addrFromCall(x.X, 0) {
+				gg = and(g, app("<", app("root", v.t), compInit("W")))
+			}
+			fc.assume(gg, tc.wf(fr.vals[x].t, x.Type(), compInit("W")))
+		} else {
+			fr.entryClosureAtLoad(v.t, et, g) // ext_crypto.go: the same fact about the entry heap's value at this address
 		}
 	case token.NOT:
 		fr.setVal(x, "Bool", not(v.t))
@@ -555,6 +568,13 @@ func (fr *Frame) convert(x *ssa.Convert, st *State, g string) {
 		fc.emit(fmt.Sprintf("(assert (forall ((i Int)) (! (=> (and (<= 0 i) (< i %s)) (= (select %s i) (strat %s i))) :pattern ((select %s i)))))", n, blk, v.t, blk))
 		fc.strToBytesFact(blk, n, v.t) // ext_bytesalgebra.go
 		fr.setVal(x, "Slice", mkSlice(pt, "0", n, n))
+		fr.kvStringBytes(g, blk, n, v.t) // ext_kviter.go: kvkey([]byte(s)) == strkey(s)
+		if _, used := fc.ufs["strseq"]; used {
+			// only in functions whose specs mention strseq(): the new block holds the byte string of the Go string (see builtin strseq)
+			fc.eng.declareUF(fc, "bseq", []string{"(Array Int Int)", "Int", "Int"}, "Int")
+			fc.assume("true", eq(app("bseq", blk, "0", n), app("strseq", v.t)))
+		}
+		fc.kvstrFact(v.t, blk, "0", n) // ext_kvstr.go
 	case tok && tb.Info()&types.IsString != 0:
 		if _, isSl := from.(*types.Slice); isSl {
 			k, s := fc.bKey(types.Typ[types.Uint8])
@@ -562,6 +582,7 @@ func (fr *Frame) convert(x *ssa.Convert, st *State, g string) {
 			fr.setVal(x, "Str", app("str_of_bytes", blk, soff(v.t), slen(v.t)))
 			fc.assume("true", eq(app("strlen", fr.vals[x].t), slen(v.t)))
 			fc.bytesToStrFact(blk, soff(v.t), slen(v.t), fr.vals[x].t) // ext_bytesalgebra.go
+			fc.kvstrFact(fr.vals[x].t, blk, soff(v.t), slen(v.t)) // ext_kvstr.go
 			return
 		}
 		fc.unsupported("conversion to string from " + x.X.Type().String())
@@ -619,6 +640,7 @@ func (fr *Frame) lookup(x *ssa.Lookup, st *State, g string) {
 		val := ite(has, app("select", app("select", fc.comp(st, mv, fc.comps[mv]), v.t), k.t), tc.zero(mt.Elem()))
 		vt := fc.define(fr.name(x), tc.sortOf(mt.Elem()), val)
 		fc.assume(g, tc.wf(vt, mt.Elem(), fc.watermark(st)))
+		fr.mapEntryClosure(mt, v.t, k.t, g) // ext_crypto.go: heap closure of the entry state for this (map, key)
 		if x.CommaOk {
 			fr.vals[x] = SV{typ: x.Type(), tuple: []SV{{t: vt, typ: mt.Elem()}, {t: fc.define(fr.name(x)+"_ok", "Bool", has), typ: boolT}}}
 		} else {
@@ -646,6 +668,9 @@ func (fr *Frame) next(x *ssa.Next, st *State, g string) {
 		return
 	}
 	mt := rng.typ.Underlying().(*types.Map)
+	if fr.mapRangeNext(x, rng, mt, st, g) {
+		return // ext_crypto.go: iteration with a ghost visited set
+	}
 	mh, mv := fc.mapComps(mt)
 	k := fc.fresh(fr.name(x)+"_k", tc.sortOf(mt.Key()))
 	has := app("select", app("select", fc.comp(st, mh, fc.comps[mh]), rng.t), k)
@@ -653,7 +678,6 @@ func (fr *Frame) next(x *ssa.Next, st *State, g string) {
 	fc.assume(g, implies(ok, and(not(eq(rng.t, nilPtr)), has, tc.wf(k, mt.Key(), fc.watermark(st)), tc.wf(val, mt.Elem(), fc.watermark(st)))))
 	// an empty map yields no element
 	fc.assume(g, implies(eq(app("select", fc.comp(st, "ML", "(Array Ptr Int)"), rng.t), "0"), not(ok)))
-	fr.nextVisited(x, st, g, rng.t, k, ok, mt) // ghost visited set of the range statement (ext_maprange.go)
 	fr.vals[x] = SV{typ: x.Type(), tuple: []SV{{t: ok, typ: boolT}, {t: k, typ: mt.Key()}, {t: val, typ: mt.Elem()}}}
 }
 
@@ -684,6 +708,7 @@ func (fr *Frame) slice(x *ssa.Slice, st *State, g string) {
 			fr.safe("slice", g, and(app("<=", "0", lo), app("<=", lo, hi), app("<=", hi, cp)), x.Pos(), "slice bounds out of range")
 		}
 		fr.setVal(x, "Slice", mkSlice(sarr(v.t), plus(soff(v.t), lo), minus(hi, lo), minus(lim, lo)))
+		fr.kvSubSliceFact(st, g, v, u.Elem(), lo, hi) // ext_kviter.go: id of a sub-window == kvsub(id of the window, lo, hi)
 	case *types.Pointer:
 		arr := u.Elem().Underlying().(*types.Array)
 		n := num(arr.Len())
@@ -744,6 +769,10 @@ func (fr *Frame) typeAssert(x *ssa.TypeAssert, st *State, g string) {
 func (fr *Frame) panicInstr(x *ssa.Panic, st *State, g string) {
 	fc := fr.fc
 	if fr.top && fr.spec != nil {
+		if fr.noPanicOld != "" { // ext_nopanic.go: under the stated condition this panic must be unreachable
+			fc.oblige(fr, "nopanic", "panic", g, not(fr.noPanicOld), x.Pos(), "explicit panic unreachable under the `nopanic when` condition", fr.props())
+			return
+		}
 		if fr.spec.MayPanic {
 			return
 		}
@@ -771,9 +800,13 @@ func (fr *Frame) ret(x *ssa.Return, st *State, g string) {
 		}
 		fr.applyHints("return", "", x.Block(), st, g, res)
 		fr.checkFrame(st, g, "return", x.Pos(), nil)
+		fr.checkDeleteOnly(st, g, x) // `modifies m[-]` (ext_c24.go)
 		env := fr.specEnv(st, fr.entry)
 		fr.bindResults(env, res)
 		for i, cl := range fr.spec.Ensures {
+			if !clauseActive(cl) { // ext_propfilter.go: a clause of another property is proved by that property's check
+				continue
+			}
 			t, err := env.evalBool(cl.E)
 			if err != nil {
 				fc.eng.stale(fr.spec, cl, err)
@@ -804,7 +837,7 @@ func (fr *Frame) applyHints(where, calleeKey string, b *ssa.BasicBlock, st *Stat
 	}
 	fc := fr.fc
 	for i, h := range fr.spec.Hints {
-		if h.Where != where {
+		if h.Where != where || !clauseActive(h.Clause) { // ext_propfilter.go
 			continue
 		}
 		if where == "after" && !(strings.HasSuffix(calleeKey, "."+h.Callee) || strings.HasSuffix(calleeKey, ")."+h.Callee) || calleeKey == h.Callee) {
@@ -818,6 +851,15 @@ func (fr *Frame) applyHints(where, calleeKey string, b *ssa.BasicBlock, st *Stat
 		if res != nil {
 			fr.bindResults(env, res)
 		}
+		for i, r := range fr.lastCallRes {
+			env.vars[fmt.Sprintf("callresult%d", i)] = r
+			if i == 0 {
+				env.vars["callresult"] = r
+			}
+			if i == len(fr.lastCallRes)-1 && r.typ != nil && isErrorType(r.typ) {
+				env.vars["callerr"] = r // the last result of the call, if it is an error
+			}
+		}
 		t, err := env.evalBool(h.Clause.E)
 		fr.curLocals, fr.curLocalAddrs = nil, nil
 		if err != nil && where == "return" {
@@ -827,6 +869,7 @@ func (fr *Frame) applyHints(where, calleeKey string, b *ssa.BasicBlock, st *Stat
 				fr.hintErr = map[int]error{}
 			}
 			fr.hintErr[i] = err
+			fr.hintUnavailable(i, h, b, st, g, res, err) // ext_hintguard.go: obligation / warning instead of a silent skip
 			continue
 		}
 		if err != nil {
@@ -841,7 +884,11 @@ func (fr *Frame) applyHints(where, calleeKey string, b *ssa.BasicBlock, st *Stat
 		if label == "" {
 			label = fmt.Sprint(i)
 		}
-		fc.oblige(fr, "hint", label, g, t, token.NoPos, h.Clause.Text, fr.props())
+		hprops := h.Clause.Props
+		if len(hprops) == 0 {
+			hprops = fr.props()
+		}
+		fc.oblige(fr, "hint", label, g, t, token.NoPos, h.Clause.Text, hprops)
 	}
 }
 
@@ -988,6 +1035,7 @@ func (fr *Frame) localsAt(h *ssa.BasicBlock, pidx int) (map[string]func(*State) 
 			}
 		}
 	}
+	fr.addrTakenLocals(h, out, addrs) // ext_locals.go: address-taken locals denote the current content of their cell
 	// composite-literal slices (`for _, x := range []T{...}`): the backing array has no source name;
 	// expose the k-th such allocation that dominates h as `slicelit` (k == 0) / `slicelit_<k>` (a *[N]T value).
 	nlit := 0
@@ -1021,7 +1069,17 @@ func (fr *Frame) localsAt(h *ssa.BasicBlock, pidx int) (map[string]func(*State) 
 			if !ok {
 				break
 			}
-			if phi.Comment == "" || strings.HasPrefix(phi.Comment, "range") {
+			if phi.Comment == "" {
+				continue
+			}
+			if strings.HasPrefix(phi.Comment, "range") {
+				// the index phi of an EARLIER loop (already left at h): addressable as rangeindex_<loop ordinal> — the index of the
+				// last element processed when the loop was left (needed by `hint return` after a loop)
+				if li := fr.loops[b]; li != nil && !li.body[h] {
+					if sv, known := fr.vals[phi]; known {
+						out[fmt.Sprintf("%s_%d", strings.ReplaceAll(phi.Comment, ".", "_"), li.ordinal)] = func(*State) SV { return sv }
+					}
+				}
 				continue
 			}
 			if sv, known := fr.vals[phi]; known {
@@ -1141,6 +1199,7 @@ func (fr *Frame) localsAt(h *ssa.BasicBlock, pidx int) (map[string]func(*State) 
 			}
 		}
 	}
+	fr.namedHeapVars(h, out, addrs) // ext_kviter.go: captured (heap-allocated) variables without an address debug ref
 	return out, addrs
 }
 
@@ -1154,6 +1213,9 @@ func valueBlock(v ssa.Value) *ssa.BasicBlock {
 func (fr *Frame) invariantsOf(li *loopInfo) []Clause {
 	if fr.spec == nil {
 		return nil
+	}
+	if fr.top {
+		return activeClauses(fr.spec.LoopInv[li.ordinal]) // ext_propfilter.go
 	}
 	return fr.spec.LoopInv[li.ordinal]
 }
@@ -1200,7 +1262,8 @@ func (fr *Frame) checkInvariants(li *loopInfo, e inEdge, kind string) {
 	st := fr.out[e.pred]
 	locals, addrs := fr.localsAt(li.header, e.pidx)
 	fr.curLocals, fr.curLocalAddrs = locals, addrs
-	defer func() { fr.curLocals, fr.curLocalAddrs = nil, nil }()
+	fr.curVisLoop = li
+	defer func() { fr.curLocals, fr.curLocalAddrs, fr.curVisLoop = nil, nil, nil }()
 	for _, a := range fr.autoInvariants(li, locals, st, func(p *ssa.Phi) SV { v := fr.val(p.Edges[e.pidx]); return v }) {
 		fc.oblige(fr, kind, fmt.Sprintf("L%d:auto", li.ordinal), e.guard, a, li.header.Instrs[0].Pos(), "automatic range bound", fr.props())
 	}
@@ -1209,7 +1272,6 @@ func (fr *Frame) checkInvariants(li *loopInfo, e inEdge, kind string) {
 	if kind == "inv-init" {
 		env.loopEntry = st // on an entry edge the loop-entry state is the state of that edge
 	}
-	fr.bindVisited(env, li)
 	for i, cl := range fr.invariantsOf(li) {
 		t, err := env.evalBool(cl.E)
 		if err != nil {
@@ -1232,13 +1294,13 @@ func (fr *Frame) assumeInvariants(li *loopInfo, st *State, g string) {
 	fc := fr.fc
 	locals, addrs := fr.localsAt(li.header, -1)
 	fr.curLocals, fr.curLocalAddrs = locals, addrs
-	defer func() { fr.curLocals, fr.curLocalAddrs = nil, nil }()
+	fr.curVisLoop = li
+	defer func() { fr.curLocals, fr.curLocalAddrs, fr.curVisLoop = nil, nil, nil }()
 	for _, a := range fr.autoInvariants(li, locals, st, func(p *ssa.Phi) SV { return fr.vals[p] }) {
 		fc.assume(g, a)
 	}
 	env := fr.specEnv(st, fr.entry)
 	env.loopEntry = li.entry
-	fr.bindVisited(env, li)
 	for _, cl := range fr.invariantsOf(li) {
 		t, err := env.evalBool(cl.E)
 		if err != nil {
